@@ -110,6 +110,25 @@ Theorem floatlineq_mixed_prefix_refuted :
 Proof. exact floatlineq_mixed_ok. Qed.
 Print Assumptions floatlineq_mixed_prefix_refuted.
 
+(* A float variable against a float CONSTANT off its step grid (LessThanOrEquals / Eq, step 0.1).  BEFORE the repair the constant was
+   re-tested exactly after the variable had been bounded (prune_fleq_plain / prune_feq_plain): x in [4.4, 6.5], x <= 4.375 and
+   x in [-2, 6.5], x == 1.25 failed (classes bounds_pinch_offgrid, eq_const_offgrid of C08).  AFTER the repair only the variable's
+   setters decide: x is fixed at 4.4 resp. 1.3; a constant beyond the opposite bound within the precision tolerance fixes the
+   variable at that bound (1.625 <= x on [-2, 1.5]: x = 1.5), beyond the tolerance the space still fails (2.0 <= x). *)
+Theorem offgrid_const_prefix_refuted :
+  prune_fleq_plain (FVar 0) (FConst (VlF (of_bits 0x4011800000000000))) (w_og_s1, []) = None /\
+  obs_ctx (prune_fleq (FVar 0) (FConst (VlF (of_bits 0x4011800000000000))) (w_og_s1, []))
+    = Some ([[1; 0x401199999999999a; 0x401199999999999a; 0x3fb999999999999a]%Z], [0%nat]) /\
+  prune_feq_plain (FVar 0) (FConst (VlF (of_bits 0x3ff4000000000000))) (w_og_s2, []) = None /\
+  obs_ctx (prune_feq (FVar 0) (FConst (VlF (of_bits 0x3ff4000000000000))) (w_og_s2, []))
+    = Some ([[1; 0x3ff4cccccccccccd; 0x3ff4cccccccccccd; 0x3fb999999999999a]%Z], [0%nat; 0%nat]) /\
+  prune_fleq_plain (FConst (VlF (of_bits 0x3ffa000000000000))) (FVar 0) (w_og_s3, []) = None /\
+  obs_ctx (prune_fleq (FConst (VlF (of_bits 0x3ffa000000000000))) (FVar 0) (w_og_s3, []))
+    = Some ([[1; 0x3ff8000000000000; 0x3ff8000000000000; 0x3fb999999999999a]%Z], [0%nat]) /\
+  prune_fleq (FConst (VlF (of_bits 0x4000000000000000))) (FVar 0) (w_og_s3, []) = None.
+Proof. exact offgrid_const_ok. Qed.
+Print Assumptions offgrid_const_prefix_refuted.
+
 (* IntLinLe posted DIRECTLY on a float variable (props level) uses the integer rules: IntLinLe([-1],[x],-3), i.e. the integer
    reading of x > 2, fails x in [0, 2.5].  The runtime API no longer produces this propagator for float variables (repair
    "linear constraints with integer literals over float variables are posted as float linear constraints": x.gt(2) becomes
